@@ -7,6 +7,7 @@ from .. import build, core, drv, par
 from ..gen import cscenes
 from ..mjconst import E
 from ..ref import constraint as cref
+from ..ref import pgsblock
 
 LEVEL = "exploration"
 RULE = ("reference-model oracle: a generated scene (articulated models with equalities / friction loss / limits / contacts, heaps of free "
@@ -18,7 +19,12 @@ RULE = ("reference-model oracle: a generated scene (articulated models with equa
         "tolerance 0, iterations 200 / 2000 / 1000+2000, noslip off, and qacc, efc_force and the objective value are compared with the "
         "reference optimum and between island and monolithic solves; runs with iterations 0,1,2,5 are checked for cost(final) <= "
         "min(cost(qacc_warmstart), cost(qacc_smooth)). distinct = (scene, cone, solver, jacobian, island mode, warmstart kind, "
-        "iteration budget); non-trivial = nefc > 0 and the reference starts agree")
+        "iteration budget); non-trivial = nefc > 0 and the reference starts agree. A PGS/elliptic run that mismatches the reference is "
+        "analysed block by block (vf/ref/pgsblock.py): the dual A+R, b is rebuilt from M, J, R, a_s, aref; every block's exact optimum "
+        "with the other blocks fixed is computed (Brent on the multipliers) and blocks whose optimum lowers the dual cost by <= 1e-13 of the "
+        "cost scale are block-optimal and never reported; the mismatch is given the signature of a known finding only if EVERY "
+        "non-optimal block is an elliptic block for which one of three mechanisms is confirmed from the engine itself (see ASSUMPTIONS), "
+        "otherwise it keeps the generic signature objective-above- / qacc-differs- / efc_force-differs-from-reference-optimum:pgs:elliptic:*")
 ASSUMPTIONS = [
     "a primal solver 'has converged' when the certificate the documentation gives, 1/2 g'M^-1 g with g = M qacc - qfrc_smooth - "
     "qfrc_constraint evaluated from the ENGINE's outputs, is below 1e-12 of the cost scale; PGS 'has converged' when efc_force is "
@@ -33,6 +39,23 @@ ASSUMPTIONS = [
     "no flex bodies (the implicit effective metric replaces M); efc_force is unique here because R > 0 makes the dual strictly convex",
     "the starting point of a primal solver is the lower-cost one of qacc_warmstart and qacc_smooth (doc Warmstart: 'The lower-cost "
     "initialization is used'); with mjDSBL_WARMSTART it is qacc_smooth",
+    "classification of a PGS/elliptic mismatch (it is a violation in every case; only the signature is decided). Block optimality is decided "
+    "by the decrease of the dual cost that the exact block optimum achieves (<= 1e-13 cost scale; measured: converged blocks <= 2.2e-17, "
+    "stalled blocks >= 7.3e-11); the whitened KKT residual (f in K, res in K*, res.f = 0; sign conditions for scalar rows) is recorded only. "
+    "A non-optimal elliptic block is CONFIRMED as "
+    "(a) apex-stall: block force exactly 0, res_n >= 0, res outside K* (res_n < |mu*res_T|) and solPGS' update rule at force < mjMINVAL "
+    "(scalar normal step, clamp) returns 0 again; "
+    "(b) qcqp-zero-friction-small-det: f_n > 0, one solPGS block update re-executed with the ENGINE's own mju_QCQP2/3/N (called through "
+    "ctypes on the block A_TT, b_c, mu, r = f_n built as solPGS builds them) leaves the block where it is (whitened move <= 1e-8 of the "
+    "scale; measured <= 7.3e-11), that call returns 0 and exactly zero friction, det / smallest Cholesky pivot of the mu-scaled block "
+    "is < 1e-10 although its Jacobi-scaled smallest eigenvalue is > 1e-8, and the exact slice optimum has non-zero friction and a lower slice cost; "
+    "(c) qcqp-unconverged-iterate: same fixed-point test (the update either reproduces the force or is undone by costChange's "
+    "cost-increase guard), the engine's QCQP output is reproduced to 1e-6 by a re-implementation of the documented iteration (Newton from "
+    "la = 0, <= 20 steps, absolute 1e-10 stops) that stopped at a multiplier below the root, so the output lies outside the ellipsoid "
+    "(|v/mu| > r (1+1e-6)), and the exact slice optimum has a lower slice cost than the engine's rescaled output. "
+    "Signature pgs-elliptic-stationary-point-is-not-the-optimum:<suffix> only if at least one block is confirmed and no non-optimal block is "
+    "left unexplained (scalar rows are never explained); solver_niter is recorded because PGS with tolerance 0 can leave through "
+    "'improvement < 0' long before its budget",
 ]
 
 SOLVER = {"newton": "mjSOL_NEWTON", "cg": "mjSOL_CG", "pgs": "mjSOL_PGS"}
@@ -40,6 +63,13 @@ TOL_COST = 1e-9
 TOL_X = 1e-7
 TOL_PGS = 1e-4
 CERT = 1e-12
+# PGS fixed-point analysis (only executed for a PGS/elliptic run that mismatches the reference)
+# a block is block-optimal when its EXACT block optimum lowers the dual cost by <= TOL_BLK_COST * cost scale (a whitened step of
+# ~4e-7 of the problem scale; PGS itself is only required to be 1e-9-stationary).  Measured over the elliptic scenes of quick seeds 0,1
+# (881 blocks of 79 mismatching runs): blocks of converged contacts <= 2.2e-17, stalled blocks >= 7.3e-11 - nothing in between
+TOL_BLK_COST = 1e-13
+# 'the engine's own block update does not move the block': whitened move <= TOL_BLK_MOVE * (|f sqrt(R)| + x scale) (measured <= 7.3e-11)
+TOL_BLK_MOVE = 1e-8
 
 
 def set_flags(m, island, cold):
@@ -72,7 +102,7 @@ def run_forward(L, m, d, cfg, ws):
     d.forward()
     nefc = d.s("nefc")
     af = d.arena_fields()
-    return dict(a=np.array(d["qacc"]), f=np.array(d.arena("efc_force", af)[:nefc]), qc=np.array(d["qfrc_constraint"]),
+    return dict(iters=int(cfg["iters"]), a=np.array(d["qacc"]), f=np.array(d.arena("efc_force", af)[:nefc]), qc=np.array(d["qfrc_constraint"]),
                 qs=np.array(d["qfrc_smooth"]), nefc=nefc, nisland=d.s("nisland"), niter=np.array(d.sv("solver_niter")).copy(),
                 aref=np.array(d.arena("efc_aref", af)[:nefc]), R=np.array(d.arena("efc_R", af)[:nefc]),
                 state=np.array(d.arena("efc_state", af)[:nefc]))
@@ -295,27 +325,120 @@ def worker(c):
         sig = "%s:%s" % (bad, tag)
         extra = {}
         if cfg["solver"] == "pgs" and cone == "elliptic":
-            # mechanism of a PGS fixed point that is not the optimum, per contact whose force differs from the reference
-            kinds = {}
-            for a0, dim, mu in rows.cones:
-                idx = np.arange(a0, a0 + dim)
-                fe = o["f"][idx]
-                if float(np.linalg.norm((fe - f_ref[idx]) * w[idx])) <= 1e-6 * (fw_ref + 1e-300):
-                    continue
-                ft = float(np.sqrt(np.sum((fe[1:] / mu) ** 2)))
-                if not fe.any() and z[a0] >= 0:
-                    kinds.setdefault("apex-with-separating-normal", []).append(int(a0))
-                elif fe[0] > 0 and not fe[1:].any():
-                    kinds.setdefault("friction-left-at-zero-under-positive-normal", []).append(int(a0))
-                elif fe[0] > 0 and abs(ft - fe[0]) <= 1e-6 * fe[0]:
-                    kinds.setdefault("on-cone-surface", []).append(int(a0))
-            if kinds:
-                first = [k for k in ("apex-with-separating-normal", "friction-left-at-zero-under-positive-normal", "on-cone-surface") if k in kinds][0]
-                sig = "pgs-elliptic-stationary-point-is-not-the-optimum:" + first
-                extra = dict(stalled_contact_rows=kinds)
+            # which blocks of the engine's final efc_force are not block-optimal, and is each of them a CONFIRMED fixed point of one
+            # of the three known defects of the elliptic block update?  Anything else keeps the generic signature (a violation)
+            try:
+                known, extra = pgs_fixed_point_analysis(ref, o)
+            except (np.linalg.LinAlgError, ValueError, RuntimeError, drv.MjError) as e:
+                known, extra = None, dict(pgs_block_analysis_error=repr(e))
+                P.count("pgs_block_analysis_failed")
+            extra["symptoms_of_differing_contacts"] = legacy_symptoms(rows, o["f"], f_ref, w, fw_ref, z)
+            if known:
+                sig = "pgs-elliptic-stationary-point-is-not-the-optimum:" + known
+                P.count("pgs_stall_confirmed:" + known)
+            else:
+                P.count("pgs_mismatch_unexplained")
         viol(sig, cfg=cfg, cost_engine=ce, cost_reference=ref.cost_ref, cost_scale=scale_c, qacc_err_Mnorm=dx, x_scale=scale_x,
              niter=o["niter"][:4], nisland=int(o["nisland"]), qacc_engine=a, qacc_reference=r["a"], **extra)
         return "viol"
+
+    def engine_qcqp(Ac, bc, mu, rad):
+        """counterfactual call of the engine's own slice solver on one block (the functions solveQCQP dispatches to)"""
+        n = len(mu)
+        out = np.zeros(n)
+        Ac, bc, mu = (np.ascontiguousarray(v, dtype=np.float64) for v in (Ac, bc, mu))
+        if n == 2:
+            fl = L.call("mju_QCQP2", out, Ac, bc, mu, float(rad), ret="i32")
+        elif n == 3:
+            fl = L.call("mju_QCQP3", out, Ac, bc, mu, float(rad), ret="i32")
+        else:
+            fl = L.call("mju_QCQP", out, Ac, bc, mu, float(rad), int(n), ret="i32")
+        return out, int(fl)
+
+    def engine_AR(nefc):
+        """efc_AR of the run that d currently holds, dense (nefc x nefc)"""
+        af = d.arena_fields()
+        vals = np.array(d.arena("efc_AR", af)).ravel()
+        if L.call("mj_isSparse", m):
+            nnz, adr, col = d.arena("efc_AR_rownnz", af), d.arena("efc_AR_rowadr", af), d.arena("efc_AR_colind", af)
+            out = np.zeros((nefc, nefc))
+            for i in range(nefc):
+                a0, k = int(adr[i]), int(nnz[i])
+                out[i, col[a0:a0 + k]] = vals[a0:a0 + k]
+            return out
+        return vals[:nefc * nefc].reshape(nefc, nefc).copy()
+
+    def pgs_fixed_point_analysis(ref, o):
+        """-> (suffix of the known finding or None, evidence).  d must still hold the PGS run o (only used for the efc_AR cross-check)"""
+        prob, rows, w = ref.prob, ref.rows, ref.w
+        f = o["f"]
+        AR, bd = pgsblock.dual_problem(prob)                      # from M, J, R, a_s, aref: nothing of the solver's state
+        try:
+            ARe = engine_AR(len(f))
+            P.note_max("pgs_AR_rebuilt_vs_engine_rel", float(np.abs(ARe - AR).max() / np.abs(AR).max()))
+        except (KeyError, ValueError, IndexError):
+            P.count("pgs_AR_crosscheck_unavailable")
+        rep, g, S = pgsblock.block_report(AR, bd, rows, f)
+        tol_cost = TOL_BLK_COST * scale_c
+        tol_move = TOL_BLK_MOVE * (float(np.linalg.norm(f * w)) + scale_x)
+        ev = dict(solver_niter=[int(v) for v in o["niter"][:max(1, min(int(o["nisland"]), 8))]], iterations_budget=int(cfg_iters(o)),
+                  nblocks=len(rep), block_cost_tolerance=tol_cost, block_move_tolerance_w=tol_move)
+        blocks, mech, unexplained = [], set(), 0
+        opt_dec = opt_kkt = 0.0
+        for rc in rep:
+            if rc["decrease"] is not None and rc["decrease"] <= tol_cost:
+                opt_dec, opt_kkt = max(opt_dec, rc["decrease"] / scale_c), max(opt_kkt, rc["kkt"])
+                continue
+            if rc["decrease"] is not None:
+                P.note_max("pgs_nonoptimal_block_inverse_decrease_rel", scale_c / rc["decrease"])
+            if rc["kind"] == "cone" and rc["decrease"] is not None:
+                idx = rc["rows"]
+                k, bev = pgsblock.classify_cone_block(rc, f[idx], w[idx], engine_qcqp, tol_cost, tol_move)
+            else:
+                k, bev = None, dict(rows=[int(rc["rows"][0]), int(rc["rows"][-1])], kind=rc["kind"], force=f[rc["rows"]].tolist(),
+                                    residual=rc["res"].tolist(), block_cost_decrease=rc["decrease"], error=rc.get("error"))
+            bev.update(mechanism=k, kkt_residual_rel=rc["kkt"], block_cost_decrease_rel=(None if rc["decrease"] is None else rc["decrease"] / scale_c))
+            blocks.append(bev)
+            if k:
+                mech.add(k)
+                P.count("pgs_confirmed_blocks:" + k)
+                if "engine_update_move_w" in bev:
+                    P.note_max("pgs_confirmed_block_engine_move_over_tol", bev["engine_update_move_w"] / tol_move)
+            else:
+                unexplained += 1
+        P.note_max("pgs_optimal_block_decrease_rel", opt_dec)
+        P.note_max("pgs_optimal_block_kkt_rel", opt_kkt)
+        ev.update(non_optimal_blocks=blocks[:12], n_non_optimal_blocks=len(blocks), n_unexplained_blocks=unexplained,
+                  max_decrease_rel_of_optimal_blocks=opt_dec, max_kkt_rel_of_optimal_blocks=opt_kkt)
+        if not blocks:
+            P.count("pgs_mismatch_with_all_blocks_optimal")
+        if mech and not unexplained:
+            return [k for k in pgsblock.PRIORITY if k in mech][0], ev
+        return None, ev
+
+    def cfg_iters(o):
+        return o.get("iters", -1)
+
+    def legacy_symptoms(rows, fe_all, f_ref, w, fw_ref, z):
+        """SYMPTOMS only (never used for the verdict): where the contacts whose force differs from the reference sit.  'on-cone-surface'
+        is the normal state of every sliding contact, so none of these says anything about the cause"""
+        kinds = {}
+        for a0, dim, mu in rows.cones:
+            idx = np.arange(a0, a0 + dim)
+            fe = fe_all[idx]
+            if float(np.linalg.norm((fe - f_ref[idx]) * w[idx])) <= 1e-6 * (fw_ref + 1e-300):
+                continue
+            ft = float(np.sqrt(np.sum((fe[1:] / mu) ** 2)))
+            if not fe.any():
+                k = "apex" + ("-separating" if z[a0] >= 0 else "")
+            elif fe[0] > 0 and not fe[1:].any():
+                k = "zero-friction"
+            elif fe[0] > 0 and abs(ft - fe[0]) <= 1e-6 * fe[0]:
+                k = "on-cone-surface"
+            else:
+                k = "inside-cone" if ft < fe[0] else "outside-cone"
+            kinds[k] = kinds.get(k, 0) + 1
+        return kinds
 
     # ---- configurations
     warm_kinds = ["cold", "prev", "garbage", "optimum"]
@@ -456,6 +579,7 @@ def _collect(ctx, cs, res):
 def run(ctx):
     build.ensure("rel")
     ctx.extra["reference_self_test"] = {k: float(v) for k, v in cref.self_test().items()}
+    ctx.extra["pgs_block_solver_self_test"] = {k: float(v) for k, v in pgsblock.self_test().items()}
     cs = cases(ctx)
     nb = 4
     for k in range(nb):
